@@ -5,7 +5,8 @@ from checks._view import run_view_check, replay  # noqa: F401
 
 
 def want(case, sig):
-    return sig.startswith("decode/") and case.get("aspect") == "size"
+    return (sig.startswith("decode/") and case.get("aspect") == "size") or sig.startswith("visit/cursor-size") \
+        or sig.startswith("visit/end")
 
 
 def fold_sub(v, pid, tier, seed, keep, why):
@@ -33,6 +34,6 @@ def run(v, tier, seed):
              "flat group size_bytes with boundary header values (GroupIter.tla huge-header vectors)")
     fold_sub(v, "C18", tier, seed, lambda s: "size_bytes" in s,
              "trait-level size_bytes (Traits.tla)")
-    return run_view_check(v, tier, seed, want, [viewpipe.view_results, viewpipe.header_results],
+    return run_view_check(v, tier, seed, want, [viewpipe.view_results, viewpipe.header_results, viewpipe.visit_results],
                           "size_bytes of message / every group / entry / data member vs the length of the SBE image part",
                           "SizesAgree + ImageSizes model-checked; run-time size_bytes of every view compared with the image")
